@@ -328,6 +328,67 @@ class _ListSort:
         self.lst = lst
 
 
+def _flatten_record(rec, prefix=()):
+    """leaves of a candidate record (tuple / named tuple object) with their position paths"""
+    if isinstance(rec, Obj) and isinstance(rec.attrs.get("_fields"), tuple):
+        rec = tuple(rec.attrs[k] for k in rec.attrs["_fields"])
+    if isinstance(rec, (tuple, list)):
+        out = {}
+        for i, x in enumerate(rec):
+            out.update(_flatten_record(x, prefix + (i,)))
+        return out
+    return {prefix: rec}
+
+
+def _record_roles(rec) -> Optional[dict]:
+    """{path: role} if the record consists of exactly one candidate's score, ref and pred label"""
+    flat = _flatten_record(rec)
+    if len(flat) != 3:
+        return None
+    roles = {}
+    names = {}
+    for pth, v in flat.items():
+        if isinstance(v, _Score):
+            roles[pth] = "score"
+            names["score"] = v.name
+        elif isinstance(v, Sym) and v.name.startswith("REF"):
+            roles[pth] = "ref"
+            names["ref"] = v.name
+        elif isinstance(v, Sym) and v.name.startswith("PRED"):
+            roles[pth] = "pred"
+            names["pred"] = v.name
+    if sorted(roles.values()) != ["pred", "ref", "score"] or names["score"] != f"score[{names['ref']},{names['pred']}]":
+        return None
+    return roles
+
+
+def generator_layout(prog) -> Optional[dict]:
+    f = prog.func("_functionals:_calc_matching_metric_of_overlapping_labels")
+    overlap = prog.func("_functionals:_calc_overlapping_labels")
+    mv, me = make_metric_objs(prog, False)
+    args = {}
+    for p in f.params:
+        lp = p.name.lower()
+        args[p.name] = Sym("PRED_ARR") if lp.startswith("pred") else Sym("REF_LABELS") if ("label" in lp and lp.startswith("ref")) else Sym("REF_ARR") if lp.startswith("ref") else me if "metric" in lp else None
+    try:
+        outs = enumerate_paths(lambda prefix: CandInterp(prog, f, dict(args), me, overlap, prefix=prefix))
+    except Exception:
+        return None
+    layouts = []
+    for out in outs:
+        v = out.value if out.kind == "return" else None
+        items = v.items if isinstance(v, _Sorted) else v if isinstance(v, list) else None
+        if not items:
+            continue
+        ls = [_record_roles(x) for x in items]
+        if any(l is None for l in ls) or any(l != ls[0] for l in ls):
+            return None
+        layouts.append(ls[0])
+    if layouts and all(l == layouts[0] for l in layouts):
+        return layouts[0]
+    return None
+
+
 def check_candidates(ctx: Ctx):
     prog = ctx.prog
     f = prog.func("_functionals:_calc_matching_metric_of_overlapping_labels")
@@ -405,13 +466,11 @@ def check_candidates(ctx: Ctx):
                     ctx.undecided("R03.2", f, out.node, construct, "candidates are dropped by a condition that is not the threshold test on the caller-supplied threshold", {**wit, "filter": [norm(c) for conds, _, _ in filters for c in conds]})
                 continue
             good = len(v.items) == 2
-            for it_ in v.items:
-                if not (isinstance(it_, tuple) and len(it_) == 2 and isinstance(it_[0], _Score) and isinstance(it_[1], tuple) and len(it_[1]) == 2):
-                    good = False
-                    break
-                s, (a, b) = it_
-                if not (isinstance(a, Sym) and isinstance(b, Sym) and a.name.startswith("REF") and b.name.startswith("PRED") and s.name == f"score[{a.name},{b.name}]"):
-                    good = False
+            # every record holds exactly one candidate's score and (ref, pred) labels, all records in
+            # the same layout (the consumers take records apart by that layout, see matcher_loop)
+            lay = [_record_roles(it_) for it_ in v.items]
+            if any(l is None for l in lay) or any(l != lay[0] for l in lay):
+                good = False
             if not good:
                 ctx.violated("R03.2", f, out.node, construct, f"candidate elements are not (score of the pair, (ref, pred)) for every discovered pair: {v.items!r}", wit)
                 continue
